@@ -546,3 +546,88 @@ func constSetRefined(v ssa.Value) (vals []constant.Value, ok bool) {
 	rec(v, nil)
 	return
 }
+
+// ---------- map literals (function-local or package-level) ----------
+
+type mapRow struct {
+	Key, Val ssa.Value
+	Pos      token.Pos
+}
+
+// mapRows lists the key/value pairs of the map literal m refers to: a MakeMap in fn with its
+// MapUpdates, or a load of a package-level variable initialised (in the package initialiser) with a
+// map literal and never stored to or updated anywhere else in first-party code.
+func mapRows(p *Prog, fn *ssa.Function, m ssa.Value) ([]mapRow, bool) {
+	m = stripChangeType(m)
+	collect := func(in *ssa.Function, mk ssa.Value) []mapRow {
+		var rows []mapRow
+		forEachInstr(in, func(_ *ssa.BasicBlock, _ int, ins ssa.Instruction) {
+			if mu, ok := ins.(*ssa.MapUpdate); ok && stripChangeType(mu.Map) == mk {
+				rows = append(rows, mapRow{mu.Key, mu.Value, mu.Pos()})
+			}
+		})
+		return rows
+	}
+	switch x := m.(type) {
+	case *ssa.MakeMap:
+		return collect(fn, x), true
+	case *ssa.UnOp:
+		g, ok := x.X.(*ssa.Global)
+		if !ok || x.Op != token.MUL || g.Pkg == nil {
+			return nil, false
+		}
+		init := g.Pkg.Func("init")
+		if init == nil {
+			return nil, false
+		}
+		var mk ssa.Value
+		n := 0
+		forEachInstr(init, func(_ *ssa.BasicBlock, _ int, ins ssa.Instruction) {
+			if st, ok := ins.(*ssa.Store); ok && st.Addr == ssa.Value(g) {
+				mk = stripChangeType(st.Val)
+				n++
+			}
+		})
+		if _, isMk := mk.(*ssa.MakeMap); !isMk || n != 1 {
+			return nil, false
+		}
+		// no other writer of the variable or of the map it holds
+		for _, f := range p.Funcs() {
+			if f == init {
+				continue
+			}
+			bad := false
+			forEachInstr(f, func(_ *ssa.BasicBlock, _ int, ins ssa.Instruction) {
+				switch y := ins.(type) {
+				case *ssa.Store:
+					if y.Addr == ssa.Value(g) {
+						bad = true
+					}
+				case *ssa.MapUpdate:
+					if u, ok := stripChangeType(y.Map).(*ssa.UnOp); ok && u.X == ssa.Value(g) {
+						bad = true
+					}
+				}
+			})
+			if bad {
+				return nil, false
+			}
+		}
+		return collect(init, mk), true
+	}
+	return nil, false
+}
+
+// globalMapRows: rows of the package-level map variable relPath.name.
+func globalMapRows(p *Prog, relPath, name string) ([]mapRow, *ssa.Global, bool) {
+	pk := p.Pkg(relPath)
+	if pk == nil {
+		return nil, nil, false
+	}
+	g, ok := pk.Members[name].(*ssa.Global)
+	if !ok {
+		return nil, nil, false
+	}
+	rows, ok := mapRows(p, nil, &ssa.UnOp{Op: token.MUL, X: g})
+	return rows, g, ok
+}
